@@ -6,6 +6,7 @@ mod c03;
 mod c05;
 mod c06;
 mod c07;
+mod c08;
 mod c10;
 mod c13;
 mod c15;
@@ -29,6 +30,9 @@ fn main() {
         "c05" => c05::main(&args),
         "c06" => c06::main(&args),
         "c07" => c07::main(&args),
+        "c08" => c08::main(&args),
+        "c08-one" => c08::one(&args),
+        "c08-replay" => c08::replay_one(&args),
         "c10" => c10::main(&args),
         "c13" => c13::main(&args),
         "c15" => c15::main(&args),
